@@ -689,3 +689,118 @@ func ruleInputReadonly(c *eng.Ctx) {
 		}
 	}
 }
+
+// R19.14 [C19]
+func ruleTextCollectorSkipsHidden(c *eng.Ctx) {
+	const R = "R19.14-COLLECTOR-SKIPS-HIDDEN"
+	c.Rule(R, "a recursive text collector of the HTML reader (a function that writes the data of text nodes and calls itself on the children) does not descend into a script or style element: the block-level walk only skips those where it meets them, a script nested inside a paragraph or cell is reached through the collector alone", 1, 0)
+	n := 0
+	for _, f := range c.P.ModuleFuncs() {
+		if f.Pkg == nil || eng.ShortPath(f.Pkg.Pkg.Path()) != "htmldoc" || f.Parent() != nil {
+			continue
+		}
+		var self ssa.Value
+		for _, p := range f.Params {
+			if strings.HasSuffix(eng.TypeName(p.Type()), "html.Node") {
+				self = p
+				break
+			}
+		}
+		if self == nil {
+			continue
+		}
+		// emits the data of text nodes
+		emits := false
+		for _, ci := range eng.Calls(f, false, func(nm string, _ ssa.CallInstruction) bool { return strings.HasSuffix(nm, ").WriteString") }) {
+			args := ci.Common().Args
+			if base, ok := htmlNodeField(args[len(args)-1], "Data"); ok && base == self {
+				emits = true
+			}
+		}
+		if !emits {
+			continue
+		}
+		descends := func(in ssa.Instruction) bool {
+			ci, ok := in.(ssa.CallInstruction)
+			if !ok || ci.Common().StaticCallee() != f {
+				return false
+			}
+			for _, a := range ci.Common().Args {
+				if a == self {
+					return false
+				}
+			}
+			return true
+		}
+		rec := false
+		eng.Instrs(f, false, func(in ssa.Instruction) {
+			if descends(in) {
+				rec = true
+			}
+		})
+		if !rec {
+			continue
+		}
+		elem, ok := htmlConst(f, "ElementNode")
+		if !ok {
+			c.Undec(R, eng.FuncName(f), f.Pos(), "html.ElementNode not found")
+			continue
+		}
+		n++
+		isSelfData := func(v ssa.Value) bool {
+			base, ok := htmlNodeField(v, "Data")
+			return ok && base == self
+		}
+		leaf := func(v ssa.Value, _ *eng.StrIntern) (int64, bool) {
+			if base, ok := htmlNodeField(v, "Type"); ok && base == self {
+				return elem, true
+			}
+			return 0, false
+		}
+		got := eng.StrReach(f, []string{"script", "style"}, isSelfData, leaf, descends)
+		var leak []string
+		for _, t := range []string{"script", "style"} {
+			if got[t] {
+				leak = append(leak, "<"+t+">")
+			}
+		}
+		c.Check(len(leak) == 0, R, eng.FuncName(f), f.Pos(), "script and style are not descended into",
+			"the collector descends into "+strings.Join(leak, ", ")+": source text of a script or style sheet nested in a content element is returned as document text")
+	}
+}
+
+// R8.5 [C08]
+func ruleFontSizeInputs(c *eng.Ctx) {
+	const R = "R8.5-FONT-SIZE-INPUTS"
+	c.Rule(R, "the effective font size reported for a fragment is computed from the Tf size and the text matrix only: it does not read the spacing and scaling parameters that move glyphs without resizing them (Tz horizontal scaling, Tc, Tw, TL, Ts)", 1, 0)
+	fn := c.P.Func("graphicsstate.(*GraphicsState).GetEffectiveFontSize")
+	if fn == nil {
+		c.Undec(R, "graphicsstate.(*GraphicsState).GetEffectiveFontSize", token.NoPos, "anchor not found")
+		return
+	}
+	forbidden := map[string]bool{"HorizontalScaling": true, "CharSpacing": true, "WordSpacing": true, "Leading": true, "Rise": true, "TextRise": true}
+	var bad []string
+	var uses, base bool
+	for _, r := range eng.Returns(fn) {
+		for _, rv := range eng.ReturnValues(r) {
+			for v := range eng.SliceInter(rv, func(*ssa.Call) bool { return true }, eng.Cluster(fn, 2)) {
+				fr, ok := eng.AsField(v)
+				if !ok {
+					continue
+				}
+				if forbidden[fr.Field] {
+					bad = append(bad, fr.Field)
+				}
+				switch fr.Field {
+				case "FontSize":
+					base = true
+				case "TextMatrix":
+					uses = true
+				}
+			}
+		}
+	}
+	bad = dedupStr(bad)
+	c.Check(len(bad) == 0 && base && uses, R, "graphicsstate.(*GraphicsState).GetEffectiveFontSize", fn.Pos(), "size = f(FontSize, TextMatrix)",
+		"the reported font size depends on "+strings.Join(bad, ", ")+" (or no longer on FontSize and the text matrix): text that differs only in spacing/scaling parameters gets different sizes and heights")
+}
